@@ -337,10 +337,9 @@ mod verif_c15 {
     let mut oam = vec![0u8; 0xa0].into_boxed_slice();
     // object layouts: y places the object on line `ly`; tile / attributes symbolic where stated
     match layout {
-      1 => { // two overlapping objects (X=20 beats X=22 where both are opaque); flips, palette and BG-priority of the first symbolic
-        let a1: u8 = kani::any();
-        // tile numbers concrete (their pixel data is symbolic anyway)
-        oam[0] = ly.wrapping_add(16); oam[1] = 20; oam[2] = 3; oam[3] = a1 & 0xf0;
+      1 | 4 => { // two overlapping objects (X=20 beats X=22 where both are opaque); attributes of the first: plain / all set
+        let a1: u8 = if layout == 1 { 0x00 } else { 0xf0 }; // 4: behind BG, Y flip, X flip, palette 1
+        oam[0] = ly.wrapping_add(16); oam[1] = 20; oam[2] = 3; oam[3] = a1;
         oam[4] = ly.wrapping_add(16 - 3); oam[5] = 22; oam[6] = 5; oam[7] = 0x10;
       }
       3 => { // equal X: the lower OAM index wins; 8x16 rows with Y flip on the second
@@ -380,6 +379,7 @@ mod verif_c15 {
   lineh!(c15_line_bg_scroll_signed, 0x08, 251, 7, 0, 0, 1, 0);
   lineh!(c15_line_window_right_edge, 0x70, 3, 0, 163, 0, 8, 0);
   lineh!(c15_line_objects_overlap, 0x12, 0, 0, 0, 0, 5, 1);
+  lineh!(c15_line_objects_flipped_behind_bg, 0x12, 0, 0, 0, 0, 5, 4);
   lineh!(c15_line_eleven_objects, 0x12, 0, 0, 0, 0, 20, 2);
   #[cfg(verif_thorough)]
   lineh!(c15_line_window_left, 0x30, 0, 0, 3, 2, 7, 0);
